@@ -1,0 +1,28 @@
+//go:build verif
+
+package comet
+
+import "sync"
+
+// verifHNSWLevels maps an index to the function that supplies the level of the
+// next inserted vertex instead of randomLevel's own draw. Installed by the
+// verification harness so that generated cases replay deterministically and can
+// choose levels adversarially. Only compiled with the build tag "verif".
+var verifHNSWLevels sync.Map // *HNSWIndex → func() (int, bool)
+
+// VerifSetHNSWLevelSource installs (or, with nil, removes) the level source of idx.
+// The source returns ok=false to let randomLevel draw as usual.
+func VerifSetHNSWLevelSource(idx *HNSWIndex, f func() (level int, ok bool)) {
+	if f == nil {
+		verifHNSWLevels.Delete(idx)
+		return
+	}
+	verifHNSWLevels.Store(idx, f)
+}
+
+func verifHNSWLevelOverride(idx *HNSWIndex) (int, bool) {
+	if f, ok := verifHNSWLevels.Load(idx); ok {
+		return f.(func() (int, bool))()
+	}
+	return 0, false
+}
